@@ -109,6 +109,8 @@ def analyse_function(qual, fn):
     class Jump(Exception):
         pass
 
+    break_states = []
+
     def block(stmts, must):
         """returns (must-set at fall-through, falls_through: bool)"""
         for st in stmts:
@@ -142,7 +144,11 @@ def analyse_function(qual, fn):
         elif isinstance(st, ast.Raise):
             expr(st.exc, must)
             return False
-        elif isinstance(st, (ast.Break, ast.Continue)):
+        elif isinstance(st, ast.Break):
+            if break_states:
+                break_states[-1].append(set(must))
+            return False
+        elif isinstance(st, ast.Continue):
             return False
         elif isinstance(st, ast.Delete):
             for t in st.targets:
@@ -168,13 +174,24 @@ def analyse_function(qual, fn):
             expr(st.iter, must)
             inner = set(must)
             bind(st.target, inner)
+            break_states.append([])
             block(st.body, inner)          # from the state before the loop: stale-value rule
-            m2, _f = block(st.orelse, set(must))
-            # after the loop: zero iterations possible -> only what was bound before
-            # (the else clause runs when the loop was not broken; be conservative)
+            exits = break_states.pop()
+            # the loop is left by a break, or by exhaustion through the else clause (zero
+            # iterations possible: from what was bound before the loop)
+            m2, f2 = block(st.orelse, set(must))
+            if f2:
+                exits.append(m2)
+            if not exits:
+                return False
+            new = set.intersection(*exits)
+            must.clear()
+            must.update(new)
         elif isinstance(st, ast.While):
             expr(st.test, must)
+            break_states.append([])
             block(st.body, set(must))
+            break_states.pop()
             block(st.orelse, set(must))
             if isinstance(st.test, ast.Constant) and st.test.value is True:
                 pass
